@@ -110,6 +110,11 @@ def convex_problem(case):
     if z:
         off = {"lo": t["lo"], "up": t["up"], "deg": t["deg"]}[z]
         lb, ub, x0, xs = lb - off, ub - off, x0 - off, xs - off
+    # letter "shift": the whole problem is translated by a constant, so that every
+    # variable has a large magnitude throughout the run (absolute vs relative steps)
+    if case.get("shift"):
+        sh = float(case["shift"])
+        lb, ub, x0, xs = lb + sh, ub + sh, x0 + sh, xs + sh
     fam = case["fam"]
     lam = float(np.linalg.eigvalsh(H)[-1])
     if fam == "qp":
@@ -151,9 +156,22 @@ def convex_problem(case):
         raise ValueError(fam)
     p = Problem()
     p.f, p.g, p.lb, p.ub, p.x0, p.H, p.xs, p.lip = f, g, lb, ub, x0, H, xs, lip
-    p.bounds = np.array([lb, ub]).T
+    p.bounds = bounds_rep(np.array([lb, ub]).T, case.get("brep"))
     p.n = n
     return p
+
+
+def bounds_rep(bounds, rep):
+    """letter: how the user writes the box - an (n,2) float array, a list of (min, max)
+    pairs with +-inf, or the documented list of pairs with None for 'no bound'"""
+    if rep in (None, "array"):
+        return bounds
+    if rep == "pairs":
+        return [(float(a), float(b)) for a, b in bounds]
+    if rep == "none":
+        return [(None if a == -np.inf else float(a), None if b == np.inf else float(b))
+                for a, b in bounds]
+    raise ValueError(rep)
 
 
 def tile(pattern, n):
@@ -316,7 +334,7 @@ def nonconvex_problem(case):
                 x0[i] = lb[i]
     p = Problem()
     p.f, p.g, p.lb, p.ub, p.x0 = f, g, lb, ub, x0
-    p.bounds = np.array([lb, ub]).T
+    p.bounds = bounds_rep(np.array([lb, ub]).T, case.get("brep"))
     p.n = n
     return p
 
@@ -353,7 +371,8 @@ class Obs:
         self.calls.append((kind, xr.tobytes()))
         self.pts.append(xr)
         if self.lb is not None:
-            if (xr < self.lb).any() or (xr > self.ub).any() or \
+            # (NaN-strict: a point with a NaN component is not inside the box)
+            if not ((xr >= self.lb) & (xr <= self.ub)).all() or \
                     (xr[self.lb == self.ub] != self.lb[self.lb == self.ub]).any():
                 self.outside.append((kind, len(self.calls) - 1, xr))
         return xx, xr
